@@ -120,19 +120,10 @@ def rule_r3(repo):
 def run(repo, check):
     from sa.rules import c02
     check.run_rule(rule_r1, repo)
-    r2 = c02.rule_r2(repo)
-    r2.rule = 'C03.R2'
-    r2.title = 'round before int at the three numeric encode sites (shared with C02.R2)'
-    for f in r2.findings:
-        f.rule = 'C03.R2'
-    check.add(r2)
+    from sa.rules.common import share as _share0
+    _share0(check, repo, c02.rule_r2, 'C03.R2', 'round before int at the three numeric encode sites (shared with C02.R2)')
     check.run_rule(rule_r3, repo)
-    r4 = c02.rule_r1(repo, check.tier)
-    r4.rule = 'C03.R4'
-    r4.title = 'what the encoder writes is what the decoder reads: codec symmetry (shared with C02.R1)'
-    for f in r4.findings:
-        f.rule = 'C03.R4'
-    check.add(r4)
+    _share0(check, repo, c02.rule_r1, 'C03.R4', 'what the encoder writes is what the decoder reads: codec symmetry (shared with C02.R1)', args=(check.tier,))
     check.run_rule(c02.rule_r6, repo, 'C03.R5')
     from sa.rules import c01, c05, c19
     from sa.rules.common import share
